@@ -1495,6 +1495,42 @@ func (e *CoreExtension) filterReverse(value interface{}, args ...interface{}) (i
 	return nil, fmt.Errorf("cannot reverse %T", value)
 }
 
+// sliceBounds computes the half-open window [start, end) that slice(start, length)
+// selects from a sequence of count elements, following Twig's rules: a negative start
+// counts from the end, a negative length leaves out that many elements at the end, an
+// omitted length means "to the end", and everything is clamped to the sequence. The
+// arithmetic never leaves [0, count], whatever the arguments are.
+func sliceBounds(count, start int, hasLength bool, length int) (int, int) {
+	if start < 0 {
+		if start < -count {
+			start = 0
+		} else {
+			start += count
+		}
+	}
+	if start > count {
+		start = count
+	}
+
+	end := count
+	if hasLength {
+		if length >= 0 {
+			if length < count-start {
+				end = start + length
+			}
+		} else if length < -count {
+			end = start
+		} else {
+			end = count + length
+			if end < start {
+				end = start
+			}
+		}
+	}
+
+	return start, end
+}
+
 func (e *CoreExtension) filterSlice(value interface{}, args ...interface{}) (interface{}, error) {
 	if value == nil {
 		return nil, nil
@@ -1511,7 +1547,8 @@ func (e *CoreExtension) filterSlice(value interface{}, args ...interface{}) (int
 	}
 
 	// Default length is to the end
-	length := -1
+	length := 0
+	hasLength := false
 	if len(args) > 1 {
 		// Make sure we can convert the second argument to an integer
 		if args[1] != nil {
@@ -1519,152 +1556,37 @@ func (e *CoreExtension) filterSlice(value interface{}, args ...interface{}) (int
 			if err != nil {
 				return nil, err
 			}
+			hasLength = true
 		}
 	}
 
 	switch v := value.(type) {
 	case string:
 		runes := []rune(v)
-		runeCount := len(runes)
-
-		// Handle negative start index
-		if start < 0 {
-			// In Twig, negative start means count from the end of the string
-			// For example, -5 means "the last 5 characters"
-			// So we convert it to a positive index directly
-			start = runeCount + start
-		}
-
-		// Check bounds
-		if start < 0 {
-			start = 0
-		}
-		if start >= runeCount {
-			return "", nil
-		}
-
-		// Calculate end index
-		end := runeCount
-		if length >= 0 {
-			end = start + length
-			if end > runeCount {
-				end = runeCount
-			}
-		} else if length < 0 {
-			// Negative length means count from the end
-			end = runeCount + length
-			if end < start {
-				end = start
-			}
-		}
-
-		return string(runes[start:end]), nil
+		lo, hi := sliceBounds(len(runes), start, hasLength, length)
+		return string(runes[lo:hi]), nil
 	case []interface{}:
-		count := len(v)
-
-		// Handle negative start index
-		if start < 0 {
-			start = count + start
-		}
-
-		// Check bounds
-		if start < 0 {
-			start = 0
-		}
-		if start >= count {
-			return []interface{}{}, nil
-		}
-
-		// Calculate end index
-		end := count
-		if length >= 0 {
-			end = start + length
-			if end > count {
-				end = count
-			}
-		} else if length < 0 {
-			// Negative length means count from the end
-			end = count + length
-			if end < start {
-				end = start
-			}
-		}
-
-		return v[start:end], nil
+		lo, hi := sliceBounds(len(v), start, hasLength, length)
+		// Copy so that the result does not share storage with the input
+		result := make([]interface{}, hi-lo)
+		copy(result, v[lo:hi])
+		return result, nil
 	}
 
 	// Try reflection for other types
 	rv := reflect.ValueOf(value)
 	switch rv.Kind() {
 	case reflect.String:
-		s := rv.String()
-		runes := []rune(s)
-		runeCount := len(runes)
-
-		// Handle negative start index
-		if start < 0 {
-			start = runeCount + start
-		}
-
-		// Check bounds
-		if start < 0 {
-			start = 0
-		}
-		if start >= runeCount {
-			return "", nil
-		}
-
-		// Calculate end index
-		end := runeCount
-		if length >= 0 {
-			end = start + length
-			if end > runeCount {
-				end = runeCount
-			}
-		} else if length < 0 {
-			// Negative length means count from the end
-			end = runeCount + length
-			if end < start {
-				end = start
-			}
-		}
-
-		return string(runes[start:end]), nil
+		runes := []rune(rv.String())
+		lo, hi := sliceBounds(len(runes), start, hasLength, length)
+		return string(runes[lo:hi]), nil
 	case reflect.Array, reflect.Slice:
-		count := rv.Len()
+		lo, hi := sliceBounds(rv.Len(), start, hasLength, length)
 
-		// Handle negative start index
-		if start < 0 {
-			start = count + start
-		}
-
-		// Check bounds
-		if start < 0 {
-			start = 0
-		}
-		if start >= count {
-			return reflect.MakeSlice(rv.Type(), 0, 0).Interface(), nil
-		}
-
-		// Calculate end index
-		end := count
-		if length >= 0 {
-			end = start + length
-			if end > count {
-				end = count
-			}
-		} else if length < 0 {
-			// Negative length means count from the end
-			end = count + length
-			if end < start {
-				end = start
-			}
-		}
-
-		// Create a new slice with the same type
-		result := reflect.MakeSlice(rv.Type(), end-start, end-start)
-		for i := start; i < end; i++ {
-			result.Index(i - start).Set(rv.Index(i))
+		// Create a new slice with the same element type
+		result := reflect.MakeSlice(reflect.SliceOf(rv.Type().Elem()), hi-lo, hi-lo)
+		for i := lo; i < hi; i++ {
+			result.Index(i - lo).Set(rv.Index(i))
 		}
 
 		return result.Interface(), nil
